@@ -44,7 +44,10 @@ static int report(const char *prop, const char *alg, const char *path, int onesh
     char key[128];
     int inc = strcmp(path, "oneshot") != 0;
     snprintf(key, sizeof(key), "%s:%s", alg, path);
-    return vf_eq(inc && oneshot_ok ? "C07" : prop, key, inc ? "incremental result" : "one-shot result", got, exp, n, "%s", ctx);
+    /* a wrong incremental result breaks the functional property (the digest for this input is wrong through a
+     * documented entry point) and, when the single-call form was right, the chunking-invariance property too */
+    if (inc && oneshot_ok) vf_eq("C07", key, "incremental result differs from the single-call result", got, exp, n, "%s", ctx);
+    return vf_eq(prop, key, inc ? "incremental result" : "one-shot result", got, exp, n, "%s", ctx);
 }
 
 #define CHUNKS 260
@@ -465,10 +468,11 @@ static void case_hkdf(uint64_t sub, int a)
                 r2 = EXPAND(st, info, infolen, big + done, n);                                            \
                 w2 = (n > 0 && done + n > 8160) ? -1 : 0;                                                            \
                 vf_out_int(r2);                                                                           \
-                if (r2 != w2) { snprintf(k, sizeof(k), "%s:expand-return", alg); vf_violation(ok ? "C07" : "C05", k, "\"done\":%zu,\"request\":%zu,\"res\":%d,\"want\":%d,%s", done, n, r2, w2, ctx); } \
+                if (r2 != w2) { snprintf(k, sizeof(k), "%s:expand-return", alg); vf_violation("C05", k, "\"done\":%zu,\"request\":%zu,\"res\":%d,\"want\":%d,%s", done, n, r2, w2, ctx); } \
                 {   size_t good = done >= 8160 ? 0 : (done + n > 8160 ? 8160 - done : n);                  \
                     snprintf(k, sizeof(k), "%s:expand-bytes", alg);                                       \
-                    vf_eq(ok ? "C07" : "C05", k, "expand output (servable prefix)", big + done, exp + (done < 8160 ? done : 0), good, "\"done\":%zu,\"request\":%zu,%s", done, n, ctx); \
+                    if (ok) vf_eq("C07", k, "expand output (servable prefix)", big + done, exp + (done < 8160 ? done : 0), good, "\"done\":%zu,\"request\":%zu,%s", done, n, ctx); \
+                    vf_eq("C05", k, "expand output (servable prefix)", big + done, exp + (done < 8160 ? done : 0), good, "\"done\":%zu,\"request\":%zu,%s", done, n, ctx); \
                     for (size_t z = good; z < n; ++z)                                                     \
                         if (big[done + z] != 0) { snprintf(k, sizeof(k), "%s:expand-no-zero-fill", alg); vf_violation("C05", k, "\"done\":%zu,\"request\":%zu,\"at\":%zu,\"byte\":%u,%s", done, n, z, big[done + z], ctx); break; } \
                     if (good < n) vf_count("hkdf_refusals", 1); }                                         \
